@@ -292,6 +292,16 @@ func (st *fstate) call(c ssa.CallInstruction) {
 		st.unmodelled(in, "invoke "+cc.Method.FullName(), all, setRes, nres)
 		return
 	}
+	// a call through a closure that a static callee returned (a constructor handing out its operations as closures)
+	switch cc.Value.(type) {
+	case *ssa.Extract, *ssa.Call:
+		if g, binds := resolveFuncValue(cc.Value); g != nil {
+			if sum, ok := st.a.Sums[g]; ok {
+				st.applySummary(in, g, sum, append(append([]ssa.Value{}, cc.Args...), binds...), setRes, res)
+				return
+			}
+		}
+	}
 	// a call through a function-typed parameter (or captured variable): deferred to the call sites of this function
 	pidx := -1
 	switch pv := cc.Value.(type) {
@@ -557,8 +567,65 @@ func resolveFuncValue(v ssa.Value) (*ssa.Function, []ssa.Value) {
 			return nil, nil
 		case *ssa.ChangeType:
 			v = x.X
+		case *ssa.Extract:
+			if c, ok := x.Tuple.(*ssa.Call); ok {
+				return returnedFunc(c, x.Index, v)
+			}
+			return nil, nil
+		case *ssa.Call:
+			return returnedFunc(x, 0, v)
 		default:
 			return nil, nil
 		}
 	}
+}
+
+// returnedFunc: result idx of the static call c is, on every return of the callee, a closure over (or a reference to) one
+// and the same function.  The closure's bindings live in the callee's frame; what they point to is contained in the
+// points-to set of the call's result (a closure value points to whatever its bindings point to), so the result value
+// itself stands in for each binding.
+func returnedFunc(c *ssa.Call, idx int, result ssa.Value) (*ssa.Function, []ssa.Value) {
+	callee := c.Common().StaticCallee()
+	if callee == nil || callee.Blocks == nil {
+		return nil, nil
+	}
+	var fn *ssa.Function
+	for _, b := range callee.Blocks {
+		for _, in := range b.Instrs {
+			ret, ok := in.(*ssa.Return)
+			if !ok {
+				continue
+			}
+			if idx >= len(ret.Results) {
+				return nil, nil
+			}
+			var g *ssa.Function
+			rv := ret.Results[idx]
+			for {
+				ct, ok := rv.(*ssa.ChangeType)
+				if !ok {
+					break
+				}
+				rv = ct.X
+			}
+			switch r := rv.(type) {
+			case *ssa.Function:
+				g = r
+			case *ssa.MakeClosure:
+				g, _ = r.Fn.(*ssa.Function)
+			}
+			if g == nil || (fn != nil && g != fn) {
+				return nil, nil
+			}
+			fn = g
+		}
+	}
+	if fn == nil {
+		return nil, nil
+	}
+	binds := make([]ssa.Value, len(fn.FreeVars))
+	for i := range binds {
+		binds[i] = result
+	}
+	return fn, binds
 }
